@@ -38,6 +38,8 @@ def loads(kind: str):
                 v[h] = 9000.0  # extraction in December only: the coldest fluid is the last step of the horizon
         elif kind == "one_borehole":
             v = base(0.09)  # one borehole of ~100 m carries it: the smallest field meets the limits between the height bounds
+        elif kind == "heavy":
+            v = [x * 12.0 for x in base(0.6)]  # needs ~55 boreholes on a 60 x 40 m lot (a cap of 30 binds), cannot be carried by a 20 x 15 m lot
         elif kind == "negligible":
             v = [x * 1e-3 for x in base(0.6)]
         elif kind == "too_large":
